@@ -29,6 +29,7 @@ def main():
         pid = det[key]["caught_by"][0]
         c = sh(f"./check {pid} --tier quick", cwd=VERIF)
         sh(f"git -C {REPO} checkout -- . && git -C {REPO} clean -fdq")
+        sh(f"git -C {VERIF} checkout -- evidence/{pid}.json")   # evidence written with the change applied does not describe /repo
         v = [l for l in c.stdout.splitlines() if l.startswith("VIOLATION")]
         out[key] = {"applied": True, "check": pid, "exit": c.returncode, "violations": len(v)}
         print(key, pid, c.returncode, len(v), flush=True)
